@@ -41,7 +41,7 @@ def queries(tier):
                     desc='format_data_string of %d symbolic bytes + mask decodes back (independent decoder of the data-string syntax)' % L,
                     bounds='len(data) == %d, all byte values, all masks, with/without mask, both flag values' % L))
     # larger cells: has_mask / flags case-split; (L=3, mask, strings allowed) exceeds the 15-byte string bound of the P encoding (17 chars)
-    for L, hm, fl in ([(2, 0, 0), (2, 0, 1), (2, 1, 1), (2, 1, 0)] if quick else [(3, 0, 0), (3, 0, 1), (3, 1, 1), (4, 0, 1), (5, 0, 1), (4, 0, 0)]):
+    for L, hm, fl in ([(2, 0, 0), (2, 0, 1), (2, 1, 1)] if quick else [(2, 1, 0), (3, 0, 0), (3, 0, 1), (3, 1, 1), (4, 0, 1), (5, 0, 1), (4, 0, 0)]):
         qs.append(Q('dsformat_len%d_m%d_f%d' % (L, hm, fl), 'P', 'h_dsformat.c', {'LEN': L, 'HM': hm, 'FL': fl}, 5 * L + 4, unwindset=PRINTF_LOOPS, mem_gb=10,
                     desc='as dsformat, has_mask=%d flags=%d fixed' % (hm, fl), bounds='len(data) == %d, all byte values, all masks' % L))
     PLOOP = '_ZN5phosg17parse_data_stringERKNSt7__cxx1112basic_stringIcSt11char_traitsIcESaIcEEEPS5_m.0:%d'
@@ -56,20 +56,21 @@ def queries(tier):
     ALLCUTS3 = [(a, b) for a in range(0, 4) for b in range(a, 4)]
     hd = [('s0', 0, 0x0, 0x2, 2, [(0, 0)]), ('s1_ascii', 1, 0x0, 0x2, 2, [(0, 0), (0, 1), (1, 1)]), ('s3_al14_ascii', 3, 0x1E, 0x2, 2, ALLCUTS3 if not quick else [(0, 3), (1, 2), (2, 2)])]
     if not quick:
-        hd += [('s5_al13_skipsep_o64', 5, 0x123456789ABCDEFD, 0x842, 16, [(0, 0), (2, 4), (3, 3), (5, 5)]),
-               ('s16_al0_noascii', 16, 0x40, 0x0, 2, [(0, 16), (7, 9)]),
-               ('s17_al15_upto2e32', 17, 0xFFFFFFEF, 0x2, 8, [(0, 1), (1, 17)]), ('s12_across2e32', 12, 0xFFFFFFF8, 0x2, 16, [(4, 8)]),
+        # cost is ~20 s per dumped byte (one string_printf per byte): cells above ~20 bytes exceed the thorough budget (measured: 12 bytes 1075 s, 17 bytes > 1800 s)
+        hd += [('s5_al13_skipsep_o64', 5, 0x123456789ABCDEFD, 0x842, 16, [(0, 0), (2, 4)]),
+               ('s16_al0_noascii', 16, 0x40, 0x0, 2, [(7, 9)]),
+               ('s3_upto2e32', 3, 0xFFFFFFFD, 0x2, 8, [(1, 2)]), ('s4_across2e32', 4, 0xFFFFFFFE, 0x2, 16, [(1, 3)]),
                ('s4_al14_w4', 4, 0xFE, 0x2, 4, [(1, 3)]), ('s2_al15_w8', 2, 0xFFFF, 0x2, 8, [(1, 1)]), ('s2_w8_top32', 2, 0xFFFFFFF0, 0x2, 8, [(0, 2)]),
-               ('s20_al7_o16_skipsep', 20, 0x107, 0x240, 4, [(5, 15)]),
-               ('s18_al15_collapse', 18, 0xF, 0x22, 2, [(1, 17)]), ('s18_al15_collapse_noascii', 18, 0x2F, 0x20, 2, [(0, 18)]),
+               ('s10_al10_o16_skipsep', 10, 0x10A, 0x240, 4, [(3, 7)]),
+               ('s18_al15_collapse_noascii', 18, 0x2F, 0x20, 2, [(0, 18)]),
                ('s8_below_top', 8, 0xFFFFFFFFFFFFFFE4, 0x2, 16, [(3, 3)])]
     for nm, size, st, fl, w, cuts in hd:
         for c1, c2 in cuts:
-            qs.append(Q('hexdump_%s_c%d_%d' % (nm, c1, c2), 'XP', 'h_hexdump.c', {'SIZE': size, 'START': '0x%xULL' % st, 'FLAGS': fl, 'WIDTH': w, 'C1': c1, 'C2': c2}, max(21, size + 3), unwindset=PRINTF_LOOPS, mem_gb=12, timeout=1800,
+            qs.append(Q('hexdump_%s_c%d_%d' % (nm, c1, c2), 'XP', 'h_hexdump.c', {'SIZE': size, 'START': '0x%xULL' % st, 'FLAGS': fl, 'WIDTH': w, 'C1': c1, 'C2': c2}, max(21 if (w == 16 and not fl & 0x40) else 19, size + 3), unwindset=PRINTF_LOOPS, mem_gb=12, timeout=1800,
                         desc='format_data text of %d symbolic bytes at 0x%x, flags 0x%x, iovecs cut at %d/%d, decoded by an independent dump parser' % (size, st, fl, c1, c2),
                         bounds='size %d, start 0x%x, flags 0x%x, cuts (%d,%d), all byte values' % (size, st, fl, c1, c2)))
     # dumps whose last line ends at 2^64 (fixes/format_data-top-of-address-space.patch; VIOLATION on the unpatched tree)
-    for nm, size, st, cuts in (('top_ends_at_2e64', 4, 0xFFFFFFFFFFFFFFFC, (0, 4)), ('top_line_to_2e64', 16, 0xFFFFFFFFFFFFFFF0, (5, 5)), ('top_last_line', 3, 0xFFFFFFFFFFFFFFF4, (1, 2))):
+    for nm, size, st, cuts in (('top_ends_at_2e64', 4, 0xFFFFFFFFFFFFFFFC, (0, 4)), ('top_unaligned_to_2e64', 5, 0xFFFFFFFFFFFFFFFB, (2, 2)), ('top_last_line', 3, 0xFFFFFFFFFFFFFFF4, (1, 2))):
         if quick and nm != 'top_ends_at_2e64':
             continue
         qs.append(Q('hexdump_' + nm, 'XP', 'h_hexdump.c', {'SIZE': size, 'START': '0x%xULL' % st, 'FLAGS': 0x2, 'WIDTH': 16, 'C1': cuts[0], 'C2': cuts[1]}, max(21, size + 3), unwindset=PRINTF_LOOPS, mem_gb=12, timeout=1800,
